@@ -1,6 +1,1037 @@
-//! C14 monitor (not built yet)
-use vcore::{Args, Report};
+//! C14 — connection IDs are issued, used, retired and routed consistently.
+//!
+//! Two history kinds, both against the real components wired exactly as `qconnection::builder` wires them:
+//!
+//! * **local + router**: 1–3 "connections" on one shared `QuicRouter`; each is a `RcvdPacketQueue`, a
+//!   `QuicRouterRegistry` (from `registry_on_issuing_scid`) that captures NEW_CONNECTION_ID frames, an
+//!   initial SCID from `gen_unique_cid`, an `ArcLocalCids` on top and (server style) an ODCID
+//!   `QuicRouterEntry`.  Ops: create, set_limit, RETIRE_CONNECTION_ID (issued / duplicate / never issued),
+//!   clear, drop, drop of the ODCID entry.  After **every** op the model (issued list, retired set, limit)
+//!   is compared: consecutive numbering, outstanding ≤ limit, exactly one replacement per effective
+//!   retirement, none for duplicates, error for never-issued numbers; and every id ever handed out on this
+//!   router is probed with a crafted short-header packet through `QuicRouter::try_deliver`: it must land in
+//!   the queue of its own connection iff it is live, nowhere otherwise.
+//! * **remote**: one `ArcRemoteCids` with 1–4 `ArcCidCell`s (paths).  Ops: NEW_CONNECTION_ID frames over a
+//!   small sequence range in any order incl. duplicates, borrow / release per cell, path retirement, new
+//!   paths.  Oracle: borrowed id is a known, not yet retired id of the peer; two paths never use the same id;
+//!   after retire-prior-to = t a renewed cell never returns a number < t (split by whether a replacement was
+//!   available); RETIRE_CONNECTION_ID frames: never twice for one number, never for a number in use, exactly
+//!   one per abandoned number at quiescence; a frame after which the number of active ids exceeds the local
+//!   limit must be refused with ConnectionIdLimit.
+use std::{
+    collections::{BTreeMap, BTreeSet},
+    net::SocketAddr,
+    sync::{Arc, Mutex},
+};
 
-pub fn run(_args: &Args, rep: &mut Report) {
-    rep.inconclusive("monitor not built yet");
+use bytes::BytesMut;
+use futures::FutureExt;
+use qbase::{
+    cid::{ArcCidCell, ArcLocalCids, ArcRemoteCids, BorrowedCid, ConnectionId, GenUniqueCid},
+    error::ErrorKind,
+    frame::{
+        NewConnectionIdFrame, RetireConnectionIdFrame,
+        io::{ReceiveFrame, SendFrame},
+    },
+    net::{
+        addr::EndpointAddr,
+        route::{Link, Pathway},
+        tx::ArcSendWaker,
+    },
+    packet::{DataHeader, DataPacket, Packet, header::OneRttHeader, signal::SpinBit},
+    varint::VarInt,
+};
+use qinterface::{
+    bind_uri::BindUri,
+    component::route::{QuicRouter, QuicRouterEntry, QuicRouterRegistry, RcvdPacketQueue, Way},
+};
+use serde_json::{Value, json};
+use vcore::{Args, Report, Rng};
+
+type Fail = (String, String);
+
+macro_rules! fail {
+    ($sig:expr, $($arg:tt)*) => {
+        return Err(($sig.to_string(), format!($($arg)*)))
+    };
+}
+
+// ================================================================================================
+// local ids + router
+// ================================================================================================
+
+#[derive(Clone, Default)]
+struct NewCidSink(Arc<Mutex<Vec<NewConnectionIdFrame>>>);
+
+impl SendFrame<NewConnectionIdFrame> for NewCidSink {
+    fn send_frame<I: IntoIterator<Item = NewConnectionIdFrame>>(&self, iter: I) {
+        self.0.lock().unwrap().extend(iter);
+    }
+}
+
+#[derive(Clone, Debug)]
+enum LOp {
+    Create { server: bool },
+    Limit { c: usize, n: u64 },
+    Retire { c: usize, seq: u64 },
+    Clear { c: usize },
+    Drop { c: usize },
+    DropOdcid { c: usize },
+}
+
+impl LOp {
+    fn to_json(&self) -> Value {
+        match self {
+            LOp::Create { server } => json!(["create", server]),
+            LOp::Limit { c, n } => json!(["limit", c, n]),
+            LOp::Retire { c, seq } => json!(["retire", c, seq]),
+            LOp::Clear { c } => json!(["clear", c]),
+            LOp::Drop { c } => json!(["drop", c]),
+            LOp::DropOdcid { c } => json!(["drop_odcid", c]),
+        }
+    }
+    fn from_json(v: &Value) -> LOp {
+        let u = |i: usize| v[i].as_u64().unwrap();
+        match v[0].as_str().unwrap() {
+            "create" => LOp::Create { server: v[1].as_bool().unwrap() },
+            "limit" => LOp::Limit { c: u(1) as usize, n: u(2) },
+            "retire" => LOp::Retire { c: u(1) as usize, seq: u(2) },
+            "clear" => LOp::Clear { c: u(1) as usize },
+            "drop" => LOp::Drop { c: u(1) as usize },
+            _ => LOp::DropOdcid { c: u(1) as usize },
+        }
+    }
+}
+
+struct Conn {
+    queue: Arc<RcvdPacketQueue>,
+    sink: NewCidSink,
+    local: Option<ArcLocalCids<QuicRouterRegistry<NewCidSink>>>,
+    odcid: Option<(ConnectionId, QuicRouterEntry)>,
+    // model
+    issued: Vec<ConnectionId>,
+    retired: BTreeSet<u64>,
+    limit: Option<u64>,
+    cleared: bool,
+    frames_seen: usize,
+    retired_before_limit: bool,
+}
+
+impl Conn {
+    fn outstanding(&self) -> u64 {
+        if self.cleared { 0 } else { self.issued.len() as u64 - self.retired.len() as u64 }
+    }
+    fn live(&self, seq: u64) -> bool {
+        !self.cleared && (seq as usize) < self.issued.len() && !self.retired.contains(&seq)
+    }
+}
+
+fn way() -> Way {
+    let a: SocketAddr = "10.0.0.2:5555".parse().unwrap();
+    let b: SocketAddr = "10.0.0.1:4433".parse().unwrap();
+    (
+        BindUri::from("inet://10.0.0.1:4433"),
+        Pathway::new(EndpointAddr::direct(b), EndpointAddr::direct(a)),
+        Link::new(a, b),
+    )
+}
+
+fn probe_packet(cid: ConnectionId) -> Packet {
+    Packet::Data(DataPacket {
+        header: DataHeader::Short(OneRttHeader::new(SpinBit::default(), cid)),
+        bytes: BytesMut::from(&[0x40u8, 1, 2, 3, 4, 5, 6, 7, 8, 9, 10, 11, 12, 13, 14, 15, 16, 17, 18, 19, 20, 21, 22, 23][..]),
+        offset: 1 + cid.len(),
+    })
+}
+
+#[derive(Default)]
+struct LStats {
+    probes: u64,
+    probes_hit: u64,
+    probes_miss: u64,
+    retire_effective: u64,
+    retire_duplicate: u64,
+    retire_unissued: u64,
+    frames: u64,
+    at_limit: u64,
+    below_limit: u64,
+    max_conns: u64,
+}
+
+/// where does a short-header packet with this DCID land? Ok(Some(conn index)) / Ok(None) = unroutable
+fn probe(router: &Arc<QuicRouter>, conns: &[Conn], cid: ConnectionId) -> Result<Option<usize>, Fail> {
+    let delivered = match router.try_deliver(probe_packet(cid), way()).now_or_never() {
+        Some(Ok(())) => true,
+        Some(Err(_)) => false,
+        None => fail!("INCONCLUSIVE", "try_deliver did not complete in one poll (queue full?)"),
+    };
+    let mut hit = None;
+    for (i, c) in conns.iter().enumerate() {
+        while let Some(Some(_)) = c.queue.one_rtt().recv().now_or_never() {
+            if hit.is_some() {
+                fail!("C14.router.cross-delivery", "one probe packet for {cid} appeared in more than one queue");
+            }
+            hit = Some(i);
+        }
+    }
+    if delivered && hit.is_none() {
+        // delivered to a queue that belongs to no connection we know: table still holds a dropped queue
+        return Ok(Some(usize::MAX));
+    }
+    Ok(hit)
+}
+
+fn check_routes(router: &Arc<QuicRouter>, conns: &[Conn], st: &mut LStats) -> Result<(), Fail> {
+    for (ci, c) in conns.iter().enumerate() {
+        for (seq, cid) in c.issued.iter().enumerate() {
+            let expect = c.live(seq as u64);
+            let got = probe(router, conns, *cid)?;
+            st.probes += 1;
+            match (expect, got) {
+                (true, Some(g)) if g == ci => st.probes_hit += 1,
+                (true, None) => fail!("C14.router.live-id-unroutable", "connection {ci} seq {seq} id {cid} is issued and unretired but the router has no entry"),
+                (true, Some(g)) => fail!("C14.router.cross-delivery", "connection {ci} seq {seq} id {cid} is live but its packet landed in queue {g}"),
+                (false, None) => st.probes_miss += 1,
+                (false, Some(g)) => {
+                    if c.local.is_none() || c.cleared {
+                        fail!("C14.router.dead-connection-routed", "connection {ci} is gone/cleared but seq {seq} id {cid} still routes (to queue {g})")
+                    } else {
+                        fail!("C14.router.retired-id-routed", "connection {ci} seq {seq} id {cid} was retired but still routes (to queue {g})")
+                    }
+                }
+            }
+        }
+        if let Some((od, _)) = &c.odcid {
+            let got = probe(router, conns, *od)?;
+            st.probes += 1;
+            match got {
+                Some(g) if g == ci => st.probes_hit += 1,
+                other => fail!("C14.router.odcid-entry", "ODCID {od} of connection {ci} routes to {other:?}"),
+            }
+        }
+    }
+    Ok(())
+}
+
+/// take newly captured NEW_CONNECTION_ID frames of connection `ci` into the model, checking numbering
+fn absorb_frames(conns: &mut [Conn], ci: usize, all_ids: &mut BTreeSet<Vec<u8>>, st: &mut LStats) -> Result<usize, Fail> {
+    let c = &mut conns[ci];
+    let frames: Vec<NewConnectionIdFrame> = c.sink.0.lock().unwrap()[c.frames_seen..].to_vec();
+    c.frames_seen += frames.len();
+    for f in &frames {
+        st.frames += 1;
+        let expect = c.issued.len() as u64;
+        if f.sequence() != expect {
+            fail!("C14.local.numbering", "connection {ci}: NEW_CONNECTION_ID carries sequence {} but the next number is {expect}", f.sequence());
+        }
+        if f.retire_prior_to() > f.sequence() {
+            fail!("C14.local.rpt-gt-seq", "connection {ci}: NEW_CONNECTION_ID seq {} has retire_prior_to {}", f.sequence(), f.retire_prior_to());
+        }
+        if !all_ids.insert(f.connection_id().to_vec()) {
+            fail!("C14.local.duplicate-cid", "connection {ci}: id {} issued twice on one router", f.connection_id());
+        }
+        c.issued.push(*f.connection_id());
+    }
+    Ok(frames.len())
+}
+
+fn run_local(ops: &[LOp], st: &mut LStats) -> Result<(), (usize, Fail)> {
+    let router = Arc::new(QuicRouter::new());
+    let mut conns: Vec<Conn> = vec![];
+    let mut all_ids: BTreeSet<Vec<u8>> = BTreeSet::new();
+    let mut odcid_ctr = 0u64;
+    for (step, op) in ops.iter().enumerate() {
+        let r: Result<(), Fail> = (|| {
+            match op.clone() {
+                LOp::Create { server } => {
+                    let queue = Arc::new(RcvdPacketQueue::new());
+                    let sink = NewCidSink::default();
+                    let registry = router.registry_on_issuing_scid(queue.clone(), sink.clone());
+                    let scid = registry.gen_unique_cid();
+                    if !all_ids.insert(scid.to_vec()) {
+                        fail!("C14.local.duplicate-cid", "initial source id {scid} collides with an id already on the router");
+                    }
+                    let odcid = server.then(|| {
+                        odcid_ctr += 1;
+                        let mut b = [0u8; 12];
+                        b[..8].copy_from_slice(&odcid_ctr.to_be_bytes());
+                        b[8] = 0x0d; // first byte 0 never collides with library ids (top bit set)
+                        let od = ConnectionId::from_slice(&b);
+                        (od, router.insert(od.into(), queue.clone()))
+                    });
+                    let local = ArcLocalCids::new(scid, registry);
+                    conns.push(Conn {
+                        queue,
+                        sink,
+                        local: Some(local),
+                        odcid,
+                        issued: vec![scid],
+                        retired: BTreeSet::new(),
+                        limit: None,
+                        cleared: false,
+                        frames_seen: 0,
+                        retired_before_limit: false,
+                    });
+                    let ci = conns.len() - 1;
+                    st.max_conns = st.max_conns.max(conns.len() as u64);
+                    absorb_frames(&mut conns, ci, &mut all_ids, st)?;
+                    if conns[ci].local.as_ref().unwrap().initial_scid() != Some(scid) {
+                        fail!("C14.local.initial-scid", "initial_scid() is not the id the connection was created with");
+                    }
+                }
+                LOp::Limit { c, n } => {
+                    if conns[c].cleared || conns[c].limit.is_some() {
+                        return Ok(()); // clear() is terminal (its only production caller is Drop); set_limit runs once
+                    }
+                    let Some(local) = conns[c].local.clone() else { return Ok(()) };
+                    let r = local.set_limit(n);
+                    if let Err(e) = r {
+                        fail!("C14.local.set-limit-error", "set_limit({n}) failed: {e}");
+                    }
+                    conns[c].limit = Some(n);
+                    absorb_frames(&mut conns, c, &mut all_ids, st)?;
+                    if !conns[c].cleared {
+                        if conns[c].outstanding() == n {
+                            st.at_limit += 1;
+                        } else {
+                            st.below_limit += 1;
+                        }
+                    }
+                }
+                LOp::Retire { c, seq } => {
+                    if conns[c].cleared {
+                        return Ok(());
+                    }
+                    let Some(local) = conns[c].local.clone() else { return Ok(()) };
+                    let next = conns[c].issued.len() as u64;
+                    let was_live = conns[c].live(seq);
+                    let r = local.recv_frame(RetireConnectionIdFrame::new(VarInt::from_u64(seq).unwrap()));
+                    let n_new = absorb_frames(&mut conns, c, &mut all_ids, st)?;
+                    if seq >= next {
+                        st.retire_unissued += 1;
+                        match r {
+                            Ok(()) => fail!("C14.local.retire-unissued-accepted", "connection {c}: RETIRE_CONNECTION_ID {seq} accepted although only 0..{next} were issued"),
+                            Err(e) if !matches!(e.kind(), ErrorKind::ProtocolViolation | ErrorKind::ConnectionIdLimit) => {
+                                fail!("C14.local.retire-unissued-kind", "connection {c}: retire of never-issued {seq} reported as {:?}", e.kind())
+                            }
+                            Err(_) => {}
+                        }
+                        if n_new != 0 {
+                            fail!("C14.local.retire-unissued-accepted", "connection {c}: rejected retire of {seq} still issued {n_new} new ids");
+                        }
+                    } else {
+                        if let Err(e) = r {
+                            fail!("C14.local.retire-issued-rejected", "connection {c}: retire of issued number {seq} rejected: {e}");
+                        }
+                        if was_live {
+                            st.retire_effective += 1;
+                            conns[c].retired.insert(seq);
+                            if conns[c].limit.is_none() {
+                                conns[c].retired_before_limit = true;
+                            }
+                            if n_new != 1 {
+                                fail!("C14.local.retire-not-replaced", "connection {c}: retiring live number {seq} produced {n_new} new ids instead of exactly one");
+                            }
+                        } else {
+                            st.retire_duplicate += 1;
+                            if n_new != 0 {
+                                fail!("C14.local.duplicate-retire-reissued", "connection {c}: repeated/void retire of {seq} produced {n_new} new ids");
+                            }
+                        }
+                    }
+                }
+                LOp::Clear { c } => {
+                    if let Some(local) = conns[c].local.clone() {
+                        local.clear();
+                        conns[c].cleared = true;
+                        let n_new = absorb_frames(&mut conns, c, &mut all_ids, st)?;
+                        if n_new != 0 {
+                            fail!("C14.local.issue-after-clear", "connection {c}: clear() issued {n_new} new ids");
+                        }
+                    }
+                }
+                LOp::Drop { c } => {
+                    conns[c].local = None; // last ArcLocalCids handle: LocalCids::drop -> clear
+                    conns[c].cleared = true;
+                    conns[c].odcid = None;
+                }
+                LOp::DropOdcid { c } => {
+                    if let Some((od, entry)) = conns[c].odcid.take() {
+                        drop(entry);
+                        if probe(&router, &conns, od)?.is_some() {
+                            fail!("C14.router.odcid-entry", "ODCID {od} still routes after its QuicRouterEntry was dropped");
+                        }
+                    }
+                }
+            }
+            // invariants after every op
+            for (ci, c) in conns.iter().enumerate() {
+                let lim = c.limit.unwrap_or(2);
+                if c.outstanding() > lim {
+                    fail!("C14.local.over-limit", "connection {ci}: {} unretired ids outstanding, peer limit {lim}", c.outstanding());
+                }
+            }
+            check_routes(&router, &conns, st)
+        })();
+        if let Err(f) = r {
+            return Err((step, f));
+        }
+    }
+    Ok(())
+}
+
+fn gen_local(rng: &mut Rng) -> Vec<LOp> {
+    let nconn = rng.range(1, 3) as usize;
+    let nops = rng.range(5, 70);
+    let mut ops = vec![LOp::Create { server: rng.bool() }];
+    let mut created = 1usize;
+    // generator-side estimate of "next" per connection, to aim retires at interesting numbers
+    let mut next: Vec<u64> = vec![2];
+    let mut limit_set = vec![false];
+    let production_order = rng.chance(3, 4); // set_limit before any retire (what the handshake guarantees)
+    for _ in 0..nops {
+        let c = rng.usize(created);
+        match rng.below(20) {
+            0 if created < nconn => {
+                ops.push(LOp::Create { server: rng.bool() });
+                created += 1;
+                next.push(2);
+                limit_set.push(false);
+            }
+            1 | 2 if !limit_set[c] => {
+                let n = rng.range(2, 8);
+                ops.push(LOp::Limit { c, n });
+                limit_set[c] = true;
+                next[c] = next[c].max(n);
+            }
+            3 if rng.chance(1, 4) => ops.push(LOp::Clear { c }),
+            4 if rng.chance(1, 4) => ops.push(LOp::Drop { c }),
+            5 if rng.chance(1, 2) => ops.push(LOp::DropOdcid { c }),
+            _ => {
+                if production_order && !limit_set[c] {
+                    let n = rng.range(2, 8);
+                    ops.push(LOp::Limit { c, n });
+                    limit_set[c] = true;
+                    next[c] = next[c].max(n);
+                    continue;
+                }
+                let seq = match rng.below(10) {
+                    0 => next[c],                                  // first never-issued number
+                    1 => next[c] + rng.range(1, 5),                // beyond
+                    2 => rng.below(next[c].max(1)),                // anything issued (often a duplicate)
+                    3 => 0,
+                    _ => {
+                        // mostly the oldest / a recent one
+                        let lo = next[c].saturating_sub(rng.range(1, 8));
+                        rng.range(lo, next[c] - 1)
+                    }
+                };
+                if seq < next[c] && next[c] < 40 {
+                    next[c] += 1; // may be a duplicate; estimate only
+                }
+                ops.push(LOp::Retire { c, seq: seq.min(45) });
+            }
+        }
+    }
+    ops
+}
+
+// ================================================================================================
+// remote ids
+// ================================================================================================
+
+#[derive(Clone, Default)]
+struct RetireSink(Arc<Mutex<Vec<RetireConnectionIdFrame>>>);
+
+impl SendFrame<RetireConnectionIdFrame> for RetireSink {
+    fn send_frame<I: IntoIterator<Item = RetireConnectionIdFrame>>(&self, iter: I) {
+        self.0.lock().unwrap().extend(iter);
+    }
+}
+
+#[derive(Clone, Debug)]
+enum ROp {
+    NewCell,
+    /// apply_initial_dcid on cell i (exactly once per history, before any frame)
+    Initial { cell: usize },
+    Frame { seq: u64, rpt: u64 },
+    Borrow { cell: usize },
+    Release { cell: usize },
+    RetireCell { cell: usize },
+}
+
+impl ROp {
+    fn to_json(&self) -> Value {
+        match self {
+            ROp::NewCell => json!(["cell"]),
+            ROp::Initial { cell } => json!(["initial", cell]),
+            ROp::Frame { seq, rpt } => json!(["frame", seq, rpt]),
+            ROp::Borrow { cell } => json!(["borrow", cell]),
+            ROp::Release { cell } => json!(["release", cell]),
+            ROp::RetireCell { cell } => json!(["retire_cell", cell]),
+        }
+    }
+    fn from_json(v: &Value) -> ROp {
+        let u = |i: usize| v[i].as_u64().unwrap();
+        match v[0].as_str().unwrap() {
+            "cell" => ROp::NewCell,
+            "initial" => ROp::Initial { cell: u(1) as usize },
+            "frame" => ROp::Frame { seq: u(1), rpt: u(2) },
+            "borrow" => ROp::Borrow { cell: u(1) as usize },
+            "release" => ROp::Release { cell: u(1) as usize },
+            _ => ROp::RetireCell { cell: u(1) as usize },
+        }
+    }
+}
+
+fn cid_of(seq: u64) -> ConnectionId {
+    let mut b = [0u8; 8];
+    vcore::prf_fill(0xc14, seq, 0, &mut b);
+    b[0] = seq as u8; // distinct for distinct small seq
+    b[1] = (seq >> 8) as u8;
+    ConnectionId::from_slice(&b)
+}
+
+struct CellM {
+    // `held` must be dropped before `cell` (it points into the cell's Arc allocation)
+    held: Option<BorrowedCid<'static, RetireSink>>,
+    cell: ArcCidCell<RetireSink>,
+    held_seq: Option<u64>,
+    last_seq: Option<u64>,
+    retired: bool,
+}
+
+#[derive(Default)]
+struct RStats {
+    frames: u64,
+    frames_dup: u64,
+    frames_reordered: u64,
+    limit_errors: u64,
+    limit_errors_unjustified: u64,
+    over_limit_by_one_accepted: u64,
+    borrows_ok: u64,
+    borrows_pending: u64,
+    borrows_none: u64,
+    switches: u64,
+    retire_frames: u64,
+    rpt_advances: u64,
+    quiescence_checks: u64,
+    stuck_cells: u64,
+    max_cells: u64,
+}
+
+struct RemoteModel {
+    limit: u64,
+    known: BTreeMap<u64, ConnectionId>,
+    max_rpt: u64,
+    retire_count: BTreeMap<u64, u32>,
+    sink_seen: usize,
+    initial_done: bool,
+    largest_seen: u64,
+    dead: bool,
+    /// violations of classes after which the history can still be followed (reported, history continues)
+    soft: Vec<Fail>,
+}
+
+impl RemoteModel {
+    fn usable(&self) -> Vec<u64> {
+        self.known.keys().copied().filter(|s| *s >= self.max_rpt && !self.retire_count.contains_key(s)).collect()
+    }
+    fn contiguous(&self) -> bool {
+        match self.known.keys().next_back() {
+            None => false,
+            Some(max) => (self.max_rpt..=*max).all(|s| self.known.contains_key(&s) || self.retire_count.contains_key(&s)),
+        }
+    }
+}
+
+fn drain_retires(sink: &RetireSink, m: &mut RemoteModel, cells: &[CellM], st: &mut RStats) -> Result<(), Fail> {
+    let frames: Vec<RetireConnectionIdFrame> = sink.0.lock().unwrap()[m.sink_seen..].to_vec();
+    m.sink_seen += frames.len();
+    for f in frames {
+        let seq = f.sequence();
+        st.retire_frames += 1;
+        let n = m.retire_count.entry(seq).or_insert(0);
+        *n += 1;
+        if *n > 1 {
+            fail!("C14.remote.retire-duplicate", "RETIRE_CONNECTION_ID {seq} emitted {} times", *n);
+        }
+        if seq >= m.max_rpt && !m.known.contains_key(&seq) {
+            fail!("C14.remote.retire-unknown-seq", "RETIRE_CONNECTION_ID {seq} emitted but the peer never issued it and retire_prior_to is {}", m.max_rpt);
+        }
+        if let Some(i) = cells.iter().position(|c| !c.retired && c.held_seq == Some(seq)) {
+            fail!("C14.remote.retire-while-in-use", "RETIRE_CONNECTION_ID {seq} emitted while path {i} holds that id for a packet");
+        }
+    }
+    Ok(())
+}
+
+fn run_remote(limit: u64, ops: &[ROp], st: &mut RStats) -> Vec<(usize, Fail)> {
+    let sink = RetireSink::default();
+    let remote = ArcRemoteCids::new(limit, sink.clone());
+    let mut cells: Vec<CellM> = vec![];
+    let mut m = RemoteModel { limit, known: BTreeMap::new(), max_rpt: 0, retire_count: BTreeMap::new(), sink_seen: 0, initial_done: false, largest_seen: 0, dead: false, soft: vec![] };
+    let waker = ArcSendWaker::new();
+
+    let do_op = |op: &ROp, cells: &mut Vec<CellM>, m: &mut RemoteModel, st: &mut RStats| -> Result<(), Fail> {
+        match op.clone() {
+            ROp::NewCell => {
+                let cell = remote.apply_dcid();
+                cells.push(CellM { held: None, cell, held_seq: None, last_seq: None, retired: false });
+                st.max_cells = st.max_cells.max(cells.len() as u64);
+            }
+            ROp::Initial { cell } => {
+                if m.initial_done || cell >= cells.len() {
+                    return Ok(());
+                }
+                remote.apply_initial_dcid(cid_of(0), &cells[cell].cell);
+                m.known.insert(0, cid_of(0));
+                m.initial_done = true;
+            }
+            ROp::Frame { seq, rpt } => {
+                if !m.initial_done {
+                    return Ok(()); // production: frames are 1-RTT, the first Initial came before
+                }
+                st.frames += 1;
+                if m.known.contains_key(&seq) {
+                    st.frames_dup += 1;
+                }
+                if seq < m.largest_seen {
+                    st.frames_reordered += 1;
+                }
+                m.largest_seen = m.largest_seen.max(seq);
+                let new_rpt = m.max_rpt.max(rpt);
+                let mut after: BTreeSet<u64> = m.known.keys().copied().collect();
+                after.insert(seq);
+                let active_after = after.iter().filter(|s| **s >= new_rpt && !m.retire_count.contains_key(s)).count() as u64;
+                // what the peer itself must count as active when it sent this frame (lower bound)
+                let peer_active = (rpt..=seq).filter(|s| !m.retire_count.contains_key(s)).count() as u64;
+                let frame = NewConnectionIdFrame::new(cid_of(seq), VarInt::from_u64(seq).unwrap(), VarInt::from_u64(rpt).unwrap());
+                match remote.recv_frame(frame) {
+                    Err(e) => {
+                        st.limit_errors += 1;
+                        if e.kind() != ErrorKind::ConnectionIdLimit {
+                            fail!("C14.remote.limit-kind", "NEW_CONNECTION_ID seq {seq} rpt {rpt} refused with {:?}", e.kind());
+                        }
+                        if active_after <= m.limit && peer_active <= m.limit {
+                            // outside the property (it only says what must be refused); evidence only
+                            st.limit_errors_unjustified += 1;
+                        }
+                        m.dead = true;
+                    }
+                    Ok(_) => {
+                        if active_after > m.limit {
+                            if active_after == m.limit + 1 {
+                                st.over_limit_by_one_accepted += 1;
+                            }
+                            let class = if active_after == m.limit + 1 { "by-one" } else { "by-more" };
+                            m.soft.push((
+                                format!("C14.remote.limit:over-limit-accepted:{class}"),
+                                format!(
+                                    "NEW_CONNECTION_ID seq {seq} rpt {rpt} accepted: {active_after} active ids afterwards ({:?} from retire_prior_to {new_rpt}), local active_connection_id_limit {}",
+                                    after.iter().filter(|s| **s >= new_rpt && !m.retire_count.contains_key(s)).collect::<Vec<_>>(),
+                                    m.limit
+                                ),
+                            ));
+                        }
+                        if new_rpt > m.max_rpt {
+                            st.rpt_advances += 1;
+                        }
+                        // (a frame arriving already below retire_prior_to is known to have been issued and is retired at once)
+                        m.known.insert(seq, cid_of(seq));
+                        m.max_rpt = new_rpt;
+                    }
+                }
+            }
+            ROp::Borrow { cell } => {
+                if cell >= cells.len() || cells[cell].held.is_some() {
+                    return Ok(());
+                }
+                let c = &cells[cell];
+                // SAFETY: the BorrowedCid refers to the Mutex inside the Arc of `cells[cell].cell`; an Arc
+                // clone is kept in the same CellM for as long as the guard exists and the guard is dropped
+                // first (field order / explicit Release), so the reference never dangles.
+                let r = c.cell.borrow_cid(waker.clone()).map(|o| o.map(|b| unsafe { std::mem::transmute::<BorrowedCid<'_, RetireSink>, BorrowedCid<'static, RetireSink>>(b) }));
+                match r {
+                    Ok(None) => {
+                        st.borrows_none += 1;
+                        if !c.retired {
+                            fail!("C14.remote.borrow-none-on-live-path", "borrow_cid on live path {cell} says the path is retired");
+                        }
+                    }
+                    Err(_) => {
+                        st.borrows_pending += 1;
+                        if c.retired {
+                            fail!("C14.remote.borrow-after-retire", "borrow_cid on retired path {cell} waits for an id instead of reporting retirement");
+                        }
+                        let live = cells.iter().filter(|c| !c.retired).count();
+                        if m.initial_done && m.contiguous() && m.usable().len() >= live {
+                            fail!("C14.remote.borrow-starved", "path {cell} has no id although {} usable ids {:?} exist for {live} live paths", m.usable().len(), m.usable());
+                        }
+                    }
+                    Ok(Some(b)) => {
+                        st.borrows_ok += 1;
+                        let cid: ConnectionId = *b;
+                        if c.retired {
+                            drop(b);
+                            fail!("C14.remote.borrow-after-retire", "borrow_cid on retired path {cell} returned id {cid}");
+                        }
+                        let Some(seq) = m.known.iter().find(|(_, v)| **v == cid).map(|(s, _)| *s) else {
+                            drop(b);
+                            fail!("C14.remote.borrow-unknown-cid", "path {cell} borrowed {cid}, which the peer never issued");
+                        };
+                        if m.retire_count.contains_key(&seq) {
+                            drop(b);
+                            fail!("C14.remote.borrow-retired-cid", "path {cell} borrowed number {seq} after RETIRE_CONNECTION_ID {seq} was emitted");
+                        }
+                        if let Some(j) = cells.iter().position(|o| !o.retired && !std::ptr::eq(o, c) && (o.held_seq == Some(seq) || o.last_seq == Some(seq))) {
+                            drop(b);
+                            fail!("C14.remote.shared-between-paths", "paths {cell} and {j} both use number {seq}");
+                        }
+                        if seq < m.max_rpt {
+                            let live = cells.iter().filter(|c| !c.retired).count();
+                            let class = if m.contiguous() && m.usable().len() >= live { "replacement-available" } else { "no-replacement-available" };
+                            if class == "no-replacement-available" {
+                                st.stuck_cells += 1;
+                            }
+                            if class == "replacement-available" {
+                                let usable = m.usable();
+                                drop(b);
+                                fail!("C14.remote.rpt-not-honoured:replacement-available", "renewed path {cell} still uses number {seq} < retire_prior_to {} although usable ids {usable:?} exist for {live} live paths", m.max_rpt);
+                            }
+                            // fewer usable ids than live paths (or a gap): there is nothing to switch to; the path keeps
+                            // its old id until the peer supplies one.  Counted, not judged (see level_note).
+                        }
+                        if c.last_seq.is_some() && c.last_seq != Some(seq) {
+                            st.switches += 1;
+                        }
+                        let c = &mut cells[cell];
+                        c.held = Some(b);
+                        c.held_seq = Some(seq);
+                        c.last_seq = Some(seq);
+                    }
+                }
+            }
+            ROp::Release { cell } => {
+                if cell < cells.len() {
+                    cells[cell].held = None; // BorrowedCid::drop -> renew
+                    cells[cell].held_seq = None;
+                }
+            }
+            ROp::RetireCell { cell } => {
+                if cell < cells.len() {
+                    cells[cell].cell.retire();
+                    cells[cell].retired = true;
+                }
+            }
+        }
+        drain_retires(&sink, m, cells, st)
+    };
+
+    let mut out: Vec<(usize, Fail)> = vec![];
+    for (step, op) in ops.iter().enumerate() {
+        if m.dead {
+            break;
+        }
+        let r = do_op(op, &mut cells, &mut m, st);
+        out.extend(m.soft.drain(..).map(|f| (step, f)));
+        if let Err(f) = r {
+            out.push((step, f));
+            return out;
+        }
+    }
+    if m.dead {
+        return out;
+    }
+    // quiescence: release everything, look at what every live path would use now
+    let n = ops.len();
+    let mut in_use = BTreeSet::new();
+    for phase in 0..2 {
+        for i in 0..cells.len() {
+            let r = if phase == 0 {
+                do_op(&ROp::Release { cell: i }, &mut cells, &mut m, st)
+            } else if cells[i].retired {
+                Ok(())
+            } else {
+                let r = do_op(&ROp::Borrow { cell: i }, &mut cells, &mut m, st);
+                if let Some(s) = cells[i].held_seq {
+                    in_use.insert(s);
+                }
+                r.and_then(|()| do_op(&ROp::Release { cell: i }, &mut cells, &mut m, st))
+            };
+            out.extend(m.soft.drain(..).map(|f| (n, f)));
+            if let Err(f) = r {
+                out.push((n, f));
+                return out;
+            }
+        }
+    }
+    st.quiescence_checks += 1;
+    for s in m.known.keys() {
+        let cnt = m.retire_count.get(s).copied().unwrap_or(0);
+        if *s < m.max_rpt && !in_use.contains(s) && cnt != 1 {
+            out.push((n, ("C14.remote.retire-missing:below-retire-prior-to".into(), format!("number {s} is below retire_prior_to {} and unused, but {cnt} RETIRE_CONNECTION_ID frames were emitted for it", m.max_rpt))));
+            return out;
+        }
+    }
+    for (i, c) in cells.iter().enumerate() {
+        if c.retired {
+            if let Some(s) = c.last_seq {
+                let cnt = m.retire_count.get(&s).copied().unwrap_or(0);
+                if cnt != 1 {
+                    out.push((n, ("C14.remote.retire-missing:path-retired".into(), format!("path {i} was retired while using number {s}, RETIRE_CONNECTION_ID emitted {cnt} times"))));
+                    return out;
+                }
+            }
+        }
+    }
+    out
+}
+
+/// path churn with a well-behaved peer: one long-lived path on number 0, short-lived paths come and go, the
+/// peer replaces each id we retire and never asks us to retire number 0 (so retire_prior_to stays 0)
+fn gen_churn(rng: &mut Rng) -> (u64, Vec<ROp>) {
+    let limit = rng.range(2, 8);
+    let mut ops = vec![ROp::NewCell, ROp::Initial { cell: 0 }, ROp::Borrow { cell: 0 }, ROp::Release { cell: 0 }];
+    let mut next = 1;
+    for s in 1..limit {
+        ops.push(ROp::Frame { seq: s, rpt: 0 });
+        next = s + 1;
+    }
+    let mut cells = 1;
+    for _ in 0..rng.range(2, 12) {
+        ops.push(ROp::NewCell);
+        let c = cells;
+        cells += 1;
+        ops.push(ROp::Borrow { cell: c });
+        if rng.bool() {
+            ops.push(ROp::Borrow { cell: 0 });
+        }
+        ops.push(ROp::Release { cell: c });
+        ops.push(ROp::Release { cell: 0 });
+        ops.push(ROp::RetireCell { cell: c });
+        // the peer saw our RETIRE_CONNECTION_ID and replaces the id: it now has exactly `limit` active again
+        ops.push(ROp::Frame { seq: next, rpt: 0 });
+        next += 1;
+    }
+    (limit, ops)
+}
+
+fn gen_remote(rng: &mut Rng) -> (u64, Vec<ROp>) {
+    if rng.chance(1, 6) {
+        return gen_churn(rng);
+    }
+    let limit = rng.range(2, 8);
+    let ncells = rng.range(1, 4) as usize;
+    let mut ops = vec![];
+    // some paths exist before the first Initial is processed
+    let pre = rng.range(1, ncells as u64) as usize;
+    for _ in 0..pre {
+        ops.push(ROp::NewCell);
+    }
+    ops.push(ROp::Initial { cell: rng.usize(pre) });
+    let mut cells = pre;
+    // a well-behaved peer schedule with perturbations: the peer keeps <= limit ids active
+    // peer state: next seq, rpt, set of active
+    let mut next = 1u64;
+    let mut rpt = 0u64;
+    let mut sent: Vec<(u64, u64)> = vec![];
+    let hostile = rng.chance(1, 5);
+    let nops = rng.range(5, 80);
+    for _ in 0..nops {
+        match rng.below(16) {
+            0 if cells < ncells => {
+                ops.push(ROp::NewCell);
+                cells += 1;
+            }
+            1 | 2 | 3 | 4 => {
+                // peer issues
+                if next > 40 {
+                    continue;
+                }
+                if hostile && rng.chance(1, 3) {
+                    // anything inside the range
+                    let seq = rng.range(0, (next + limit + 2).min(42));
+                    let r = rng.range(0, seq);
+                    ops.push(ROp::Frame { seq, rpt: r });
+                    sent.push((seq, r));
+                    continue;
+                }
+                // honest: advance rpt so that next - rpt < limit (peer counts [rpt, next] as active)
+                if next + 1 - rpt > limit || rng.chance(1, 5) {
+                    let min_rpt = (next + 1).saturating_sub(limit);
+                    rpt = rpt.max(rng.range(min_rpt, next).max(rpt));
+                }
+                let f = (next, rpt);
+                next += 1;
+                sent.push(f);
+                match rng.below(6) {
+                    0 => {} // lost for now (may be retransmitted later)
+                    1 if ops.len() > 3 => {
+                        // reordered: insert earlier
+                        let at = ops.len() - rng.usize(3) - 1;
+                        ops.insert(at.max(pre + 1), ROp::Frame { seq: f.0, rpt: f.1 });
+                    }
+                    _ => ops.push(ROp::Frame { seq: f.0, rpt: f.1 }),
+                }
+            }
+            5 if !sent.is_empty() => {
+                // retransmission / duplicate of an older frame
+                let f = *rng.pick(&sent);
+                ops.push(ROp::Frame { seq: f.0, rpt: f.1 });
+            }
+            6 if rng.chance(1, 3) => ops.push(ROp::RetireCell { cell: rng.usize(cells) }),
+            7..=11 => ops.push(ROp::Borrow { cell: rng.usize(cells) }),
+            _ => ops.push(ROp::Release { cell: rng.usize(cells) }),
+        }
+    }
+    (limit, ops)
+}
+
+// ================================================================================================
+
+fn hash_ops(tag: u64, js: &[Value]) -> u64 {
+    vcore::fnv_str(&format!("{tag}{}", Value::from(js.to_vec())))
+}
+
+fn report(rep: &mut Report, kind: &str, extra: Value, ops_json: Vec<Value>, step: usize, f: Fail) {
+    if f.0 == "INCONCLUSIVE" {
+        rep.inconclusive(f.1);
+        return;
+    }
+    let upto: Vec<Value> = ops_json.into_iter().take(step + 1).collect();
+    let mut replay = json!({"kind": kind, "ops": upto});
+    if let Some(o) = extra.as_object() {
+        for (k, v) in o {
+            replay[k] = v.clone();
+        }
+    }
+    rep.violation(f.0, format!("step {step} of a {kind} history: {}", f.1), replay);
+}
+
+fn eval_local(rep: &mut Report, ops: &[LOp], stats: &mut LStats) {
+    rep.evaluations += 1;
+    let js: Vec<Value> = ops.iter().map(|o| o.to_json()).collect();
+    match vcore::panics::catch(|| {
+        let mut st = LStats::default();
+        let r = run_local(ops, &mut st);
+        (st, r)
+    }) {
+        Ok((st, r)) => {
+            stats.probes += st.probes;
+            stats.probes_hit += st.probes_hit;
+            stats.probes_miss += st.probes_miss;
+            stats.retire_effective += st.retire_effective;
+            stats.retire_duplicate += st.retire_duplicate;
+            stats.retire_unissued += st.retire_unissued;
+            stats.frames += st.frames;
+            stats.at_limit += st.at_limit;
+            stats.below_limit += st.below_limit;
+            stats.max_conns = stats.max_conns.max(st.max_conns);
+            if st.retire_effective > 0 {
+                rep.distinct(hash_ops(1, &js));
+            }
+            if let Err((step, f)) = r {
+                report(rep, "local", json!({}), js, step, f);
+            }
+        }
+        Err(p) => {
+            let loc = vcore::panics::short_location(&p.location);
+            rep.violation(format!("C14.panic:{loc}"), format!("panic in a local/router history: {} at {loc}", p.message), json!({"kind": "local", "ops": js}));
+        }
+    }
+}
+
+fn eval_remote(rep: &mut Report, limit: u64, ops: &[ROp], stats: &mut RStats) {
+    rep.evaluations += 1;
+    let js: Vec<Value> = ops.iter().map(|o| o.to_json()).collect();
+    match vcore::panics::catch(|| {
+        let mut st = RStats::default();
+        let r = run_remote(limit, ops, &mut st);
+        (st, r)
+    }) {
+        Ok((st, r)) => {
+            macro_rules! acc { ($($f:ident),*) => { $( stats.$f += st.$f; )* } }
+            acc!(frames, frames_dup, frames_reordered, limit_errors, limit_errors_unjustified, over_limit_by_one_accepted, borrows_ok, borrows_pending, borrows_none, switches, retire_frames, rpt_advances, quiescence_checks, stuck_cells);
+            stats.max_cells = stats.max_cells.max(st.max_cells);
+            if st.rpt_advances > 0 || st.switches > 0 {
+                rep.distinct(hash_ops(2 + limit, &js));
+            }
+            for (step, f) in r {
+                report(rep, "remote", json!({"limit": limit}), js.clone(), step, f);
+            }
+        }
+        Err(p) => {
+            let loc = vcore::panics::short_location(&p.location);
+            rep.violation(format!("C14.panic:{loc}"), format!("panic in a remote-id history: {} at {loc}", p.message), json!({"kind": "remote", "limit": limit, "ops": js}));
+        }
+    }
+}
+
+pub fn run(args: &Args, rep: &mut Report) {
+    rep.rule = "history = op sequence over (a) 1-3 connections on one router or (b) one peer-id registry with 1-4 paths; distinct = \
+                distinct op sequences; non-trivial = (a) at least one effective retirement of a live id, (b) at least one \
+                retire-prior-to advance or one path switching to another id"
+        .into();
+    let mut ls = LStats::default();
+    let mut rs = RStats::default();
+    if let Some(path) = args.get("replay") {
+        let v: Value = serde_json::from_str(&std::fs::read_to_string(path).unwrap()).unwrap();
+        let v = if v.get("replay").is_some() { v["replay"].clone() } else { v };
+        let ops = v["ops"].as_array().cloned().unwrap_or_default();
+        match v["kind"].as_str().unwrap_or("") {
+            "local" => eval_local(rep, &ops.iter().map(LOp::from_json).collect::<Vec<_>>(), &mut ls),
+            "remote" => eval_remote(rep, v["limit"].as_u64().unwrap(), &ops.iter().map(ROp::from_json).collect::<Vec<_>>(), &mut rs),
+            other => rep.inconclusive(format!("unknown replay kind {other:?}")),
+        }
+        emit(rep, &ls, &rs);
+        return;
+    }
+    let thorough = args.get("tier") == Some("thorough");
+    let shard = args.u64("shard", 0);
+    let n = args.budget(if thorough { 60_000 } else { 4_000 });
+    let mut rng = Rng::new(args.seed() ^ 0xc14).fork(shard);
+    for i in 0..n {
+        let ops = gen_local(&mut rng);
+        if i < 2 {
+            rep.sample(json!({"kind": "local", "ops": ops.iter().take(16).map(|o| o.to_json()).collect::<Vec<_>>()}));
+        }
+        eval_local(rep, &ops, &mut ls);
+        let (limit, ops) = gen_remote(&mut rng);
+        if i < 2 {
+            rep.sample(json!({"kind": "remote", "limit": limit, "ops": ops.iter().take(16).map(|o| o.to_json()).collect::<Vec<_>>()}));
+        }
+        eval_remote(rep, limit, &ops, &mut rs);
+    }
+    rep.add("local_histories", n);
+    rep.add("remote_histories", n);
+    emit(rep, &ls, &rs);
+}
+
+fn emit(rep: &mut Report, ls: &LStats, rs: &RStats) {
+    rep.add("router_probes", ls.probes);
+    rep.add("router_probes_hit_own_queue", ls.probes_hit);
+    rep.add("router_probes_unroutable_as_expected", ls.probes_miss);
+    rep.add("local_retire_effective", ls.retire_effective);
+    rep.add("local_retire_duplicate", ls.retire_duplicate);
+    rep.add("local_retire_never_issued", ls.retire_unissued);
+    rep.add("local_new_cid_frames", ls.frames);
+    rep.add("local_set_limit_outstanding_equals_limit", ls.at_limit);
+    rep.add("local_set_limit_outstanding_below_limit", ls.below_limit);
+    rep.max("max_connections_on_router", ls.max_conns);
+    rep.add("remote_frames", rs.frames);
+    rep.add("remote_frames_duplicate", rs.frames_dup);
+    rep.add("remote_frames_reordered", rs.frames_reordered);
+    rep.add("remote_limit_errors", rs.limit_errors);
+    rep.add("remote_limit_errors_not_required_by_limit", rs.limit_errors_unjustified);
+    rep.add("remote_over_limit_by_one_accepted", rs.over_limit_by_one_accepted);
+    rep.add("remote_borrows_ok", rs.borrows_ok);
+    rep.add("remote_borrows_pending", rs.borrows_pending);
+    rep.add("remote_borrows_on_retired_path", rs.borrows_none);
+    rep.add("remote_path_switches", rs.switches);
+    rep.add("remote_retire_frames", rs.retire_frames);
+    rep.add("remote_rpt_advances", rs.rpt_advances);
+    rep.add("remote_quiescence_checks", rs.quiescence_checks);
+    rep.add("remote_stuck_paths", rs.stuck_cells);
+    rep.max("max_paths", rs.max_cells);
 }
